@@ -50,8 +50,8 @@ def main():
         res["suite_passes_with_change"] = "100% tests passed" in out
         res["suite_tail"] = out.strip().splitlines()[-3:]
         if os.path.exists(demo):
-            rc1, o1 = sh(["sh", demo, wt], timeout=1800, cwd=d)
-            rc0, o0 = sh(["sh", demo, clean], timeout=1800, cwd=d)
+            rc1, o1 = sh(["bash", demo, wt], timeout=1800, cwd=d)
+            rc0, o0 = sh(["bash", demo, clean], timeout=1800, cwd=d)
             res["demo_exit_changed"] = rc1
             res["demo_exit_clean"] = rc0
             res["demo_tail_changed"] = o1.strip().splitlines()[-3:]
